@@ -342,6 +342,36 @@ def generate():
     L.append("(* AndroidParser.walk: except <names>: yield XMLJunk(contents); return *)")
     L.append("Definition c05_android_caught : list str := [" + "; ".join(cstr(n) for n in names) + "].")
     L.append(f"Definition c05_android_catches_all : bool := {cbool(catches_everything(names))}.")
+    # spans of Android entries: what `skips.sort(key=lambda s: s.span[0])` compares
+    src = inspect.getsource(pandroid)
+    if ".span" in src.replace("# most span", ""):
+        raise ValueError("parser/android.py mentions .span: spans may no longer be the constructor's")
+
+    def super_init_args(cls, what):
+        ti = func_tree(cls.__init__)
+        cs = [n for n in ast.walk(ti) if isinstance(n, ast.Call) and ast.unparse(n.func) == "super().__init__"]
+        if len(cs) != 1:
+            raise ValueError(f"{what}: super().__init__ call")
+        return [ast.unparse(a) for a in cs[0].args]
+    a = super_init_args(pandroid.AndroidEntity, "AndroidEntity")
+    if len(a) != 6 or a[3] != "(None, None)" or pandroid.AndroidEntity.__mro__[1] is not pbase.Entity:
+        raise ValueError(f"AndroidEntity: span argument {a}")
+    j = super_init_args(pandroid.XMLJunk, "XMLJunk")
+    if len(j) != 2 or j[1] != "(0, 0)" or pandroid.XMLJunk.__mro__[1] is not pbase.Junk:
+        raise ValueError(f"XMLJunk: span argument {j}")
+    tm = func_tree(content.ContentComparer.merge)
+    sorts = [n for n in ast.walk(tm) if isinstance(n, ast.Call) and ast.unparse(n.func) == "skips.sort"]
+    if len(sorts) != 1 or ast.unparse(sorts[0]) != "skips.sort(key=lambda s: s.span[0])":
+        raise ValueError("merge: skips.sort call")
+    g = guard_of(tm, parents(tm), [n for n in ast.walk(tm) if isinstance(n, ast.Expr) and n.value is sorts[0]][0],
+                 "merge")
+    if g[1] != "none":
+        raise ValueError("merge: skips.sort is guarded")
+    L.append("(* the sort key `s.span[0]` of the entries compare() puts into `skips` for strings.xml:")
+    L.append("   AndroidEntity passes (None, None) as its span, XMLJunk (0, 0) *)")
+    L.append("Definition c05_android_entity_key : option nat := None.")
+    L.append("Definition c05_android_junk_key : option nat := Some 0.")
+    L.append("")
     td = func_tree(dtd.DTDChecker.check)
     tries = [n for n in ast.walk(td) if isinstance(n, ast.Try)]
     tries.sort(key=lambda n: n.lineno)
